@@ -36,11 +36,12 @@ type c18State struct {
 
 type c18Flow struct {
 	name    string
-	token   bool                            // a token-endpoint (token-issuing) or revoking request
-	prep    func(st *c18State) bool         // prepares the credential to exchange
-	fire    func(st *c18State) c18Res       // the request under test (raw, not judged by the model)
+	refused bool                              // the fault-free request is (and must stay) refused; no fault may turn it into tokens
+	token   bool                              // a token-endpoint (token-issuing) or revoking request
+	prep    func(st *c18State) bool           // prepares the credential to exchange
+	fire    func(st *c18State) c18Res         // the request under test (raw, not judged by the model)
 	retry   func(st *c18State) (bool, string) // the legitimate retry through the model (returns success)
-	replay  func(st *c18State)              // replay after a successful retry, judged by the model
+	replay  func(st *c18State)                // replay after a successful retry, judged by the model
 }
 
 func tokRes(out *world.Out) c18Res {
@@ -91,11 +92,22 @@ func c18Flows() []c18Flow {
 	return []c18Flow{
 		{name: "code", token: true, prep: codePrep("code", []string{"offline", "fosite"}, false), fire: codeFire, retry: codeRetry, replay: codeReplay},
 		{name: "code+pkce", token: true, prep: codePrep("code", []string{"offline", "fosite"}, true), fire: codeFire, retry: codeRetry, replay: codeReplay},
+		{name: "code+pkce-without-verifier", token: true, refused: true, prep: codePrep("code", []string{"offline", "fosite"}, true),
+			fire: func(st *c18State) c18Res {
+				f := redeemForm(st)
+				f.Del("code_verifier")
+				return tokRes(st.w.Token(f, authFor(st.w, st.client)))
+			}},
 		{name: "code+openid", token: true, prep: codePrep("code", []string{"openid", "offline", "fosite"}, false), fire: codeFire, retry: codeRetry, replay: codeReplay},
 		{name: "hybrid-code+openid", token: true, prep: codePrep("code id_token", []string{"openid", "offline"}, false), fire: codeFire, retry: codeRetry, replay: codeReplay},
 		{name: "refresh", token: true, prep: refreshPrep,
-			fire:   func(st *c18State) c18Res { return tokRes(st.w.Token(url.Values{"grant_type": {"refresh_token"}, "refresh_token": {st.tok.Value}}, authFor(st.w, st.client))) },
-			retry:  func(st *c18State) (bool, string) { o := st.s.Refresh(st.tok, "", nil); return o.Err == nil, world.ErrDetail(o.Err) },
+			fire: func(st *c18State) c18Res {
+				return tokRes(st.w.Token(url.Values{"grant_type": {"refresh_token"}, "refresh_token": {st.tok.Value}}, authFor(st.w, st.client)))
+			},
+			retry: func(st *c18State) (bool, string) {
+				o := st.s.Refresh(st.tok, "", nil)
+				return o.Err == nil, world.ErrDetail(o.Err)
+			},
 			replay: func(st *c18State) { st.s.Refresh(st.tok, "", nil) }},
 		{name: "refresh-reuse-handling", token: true, prep: func(st *c18State) bool {
 			if !refreshPrep(st) {
@@ -104,7 +116,9 @@ func c18Flows() []c18Flow {
 			st.s.Refresh(st.tok, "", nil) // st.tok is now a used token; presenting it triggers reuse handling
 			return st.g.Latest != nil && st.g.Latest != st.tok
 		},
-			fire: func(st *c18State) c18Res { return tokRes(st.w.Token(url.Values{"grant_type": {"refresh_token"}, "refresh_token": {st.tok.Value}}, authFor(st.w, st.client))) }},
+			fire: func(st *c18State) c18Res {
+				return tokRes(st.w.Token(url.Values{"grant_type": {"refresh_token"}, "refresh_token": {st.tok.Value}}, authFor(st.w, st.client)))
+			}},
 		{name: "code-replay-handling", token: true, prep: func(st *c18State) bool {
 			st.g = st.s.Authorize(sim.AuthzReq{Client: st.client, RT: "code", Scopes: []string{"offline", "fosite"}})
 			if st.g == nil {
@@ -135,7 +149,9 @@ func c18Flows() []c18Flow {
 				}
 			}},
 		{name: "client_credentials", token: true, prep: func(st *c18State) bool { return true },
-			fire: func(st *c18State) c18Res { return tokRes(st.w.Token(url.Values{"grant_type": {"client_credentials"}, "scope": {"fosite"}}, authFor(st.w, "conf-a"))) }},
+			fire: func(st *c18State) c18Res {
+				return tokRes(st.w.Token(url.Values{"grant_type": {"client_credentials"}, "scope": {"fosite"}}, authFor(st.w, "conf-a")))
+			}},
 		{name: "password", token: true, prep: func(st *c18State) bool { return true },
 			fire: func(st *c18State) c18Res {
 				return tokRes(st.w.Token(url.Values{"grant_type": {"password"}, "username": {world.UserName}, "password": {world.UserPass}, "scope": {"offline fosite"}}, authFor(st.w, "conf-a")))
@@ -280,7 +296,7 @@ func C18(c *run.Ctx) {
 				res0 := fl.fire(st0)
 				st0.w.Store.Tap = nil
 				n := len(recorded)
-				if !res0.ok && fl.name != "refresh-reuse-handling" && fl.name != "code-replay-handling" {
+				if !res0.ok && fl.name != "refresh-reuse-handling" && fl.name != "code-replay-handling" && !fl.refused {
 					c.Inconcl(fmt.Sprintf("flow %s does not succeed without faults: %s", fl.name, res0.detail))
 					continue
 				}
@@ -371,7 +387,7 @@ func c18One(c *run.Ctx, fl c18Flow, db, jwt bool, mk func() (*c18State, bool), r
 		return // the call sequence was shorter this time (cannot happen for deterministic flows)
 	}
 	// (1) no tokens although a storage call failed unexpectedly
-	if benign {
+	if benign && !(fl.refused && (f1.kind == "generic" || f1.kind == "serialization")) {
 		c.Unspecified("read-answered-not-found-or-inactive")
 	} else if res.tokens || (res.ok && fl.name != "revocation") {
 		viol("tokens-despite-storage-failure", fmt.Sprintf("flow=%s call=%s kind=%s", fl.name, target.Method, f1.kind), "the response carries a credential although a storage call failed: "+res.detail)
